@@ -69,7 +69,8 @@ class Abs:
             src["h"] = []
         elif op in ("mrg", "asg"):
             i, j = a[0], a[1]
-            if not self.live(i) or not self.live(j) or i == j: return False, []
+            if not self.live(i) or not self.live(j): return False, []
+            if i == j: return True, []          # merging a suspend point into itself keeps its handles
             if op == "asg" and S[i]["typed"] and not S[j]["typed"]: return False, []
             S[i]["h"] = S[i]["h"] + S[j]["h"]
             S[j]["h"] = []
@@ -189,7 +190,7 @@ class SPSuite(Suite):
                 k = rng.randrange(6)
                 if k == 0 and live: emit("ctor %d" % rng.choice(live))
                 elif k == 1 and vac: emit("addh %d %d" % (rng.choice(vac), 0))
-                elif k == 2 and live: emit("mrg %d %d" % (live[0], live[0]))
+                elif k == 2 and live: emit("size %d" % live[0])
                 elif k == 3 and vac: emit("pop %d" % rng.choice(vac))
                 elif k == 4 and vac and live: emit("mov %d %d" % (live[0], vac[0]))
                 elif k == 5:
@@ -226,7 +227,10 @@ class SPSuite(Suite):
                 continue
             r = rng.random()
             pm = 0.30 if prof == "merge" else 0.16
-            if r < pm and len(live) >= 2:
+            if r < 0.02:
+                i = rng.choice(live)
+                emit("%s %d %d" % (rng.choice(["mrg", "asg"]), i, i))      # self-merge / self move-assignment
+            elif r < pm and len(live) >= 2:
                 i, j = rng.sample(live, 2)
                 emit("%s %d %d" % ("asg" if rng.random() < 0.4 and not (ab.slots[i]["typed"] and not ab.slots[j]["typed"]) else "mrg", i, j))
             elif r < pm + 0.12 and vac:
@@ -284,8 +288,8 @@ class SPSuite(Suite):
     def exhaustive_cases(self, depth):
         """every sequence of up to `depth` macro-operations over two suspend points (slot 0 starts with 3 handles, i.e.
         at the inline limit, slot 1 with one), in both modes; `grow` adds 4 handles at once (crosses the next boundary)"""
-        alphabet = ["add0", "add1", "grow0", "mrg01", "mrg10", "asg01", "mov", "pop0", "pop1", "clear0", "del0", "del1",
-                    "await0", "await1"]
+        alphabet = ["add0", "add1", "grow0", "mrg01", "mrg10", "asg01", "self0", "mov", "pop0", "pop1", "clear0", "del0",
+                    "del1", "await0", "await1"]
         cases = []
 
         def rec(prefix):
@@ -312,6 +316,8 @@ class SPSuite(Suite):
                 ls.append("mrg %s %s" % (m[3], m[4]))
             elif m == "asg01":
                 ls.append("asg 0 1")
+            elif m == "self0":
+                ls.append("asg 0 0")
             elif m == "mov":
                 ls += ["mov 2 0", "mrg 1 2", "del 2"]
             elif m in ("pop0", "pop1"):
@@ -327,7 +333,7 @@ class SPSuite(Suite):
         return {"id": 0, "lines": ls}
 
     def gen_cases(self, rng, tier):
-        n = 1000 if tier == "quick" else 150000
+        n = 1000 if tier == "quick" else 250000
         cases = self.boundary_cases() + self.exhaustive_cases(3 if tier == "quick" else 4)
         for _ in range(n):
             cases.append(self.gen_case(rng))
@@ -347,7 +353,7 @@ class SPSuite(Suite):
         resumed = {}
         live_blocks = 0
         news = dels = 0
-        if len(out) != len(ops):
+        if len(out) != len(ops) and not any(l.startswith("stuck") for l in out):
             msgs.append("trace: %d output lines for %d operations" % (len(out), len(ops)))
         for op, line in zip(ops, out):
             w = op.split()
@@ -470,7 +476,6 @@ class C06(Spec):
                   "(sampling), the assumption that resumed coroutines are trivial (they do not touch the suspend points or the queue while "
                   "being resumed), _count_flag does not overflow 2^31 handles")
     assumptions = ["resumed coroutines do not operate on the suspend points / ready queue while they are being resumed (trivial counting coroutines)",
-                   "a suspend point is not merged / move-assigned into itself",
                    "the awaiting coroutine's own handle is not among the handles of the awaited suspend point and not already queued",
                    "fewer than 2^31 handles per suspend point (unsigned _count_flag)",
                    "single thread (suspend_point is not a shared object)"]
